@@ -975,9 +975,10 @@ def crawl_page(fn: str, text: str) -> Dict[str, Any]:
                     for a in (p.find_all("a") if p is not None else []):
                         entries.append(("letterlink", letter, False, a.get("href") or ""))
         elif stem == "undoccedSummary" and tree is not None:
-            for a in A(tree):
-                links.append(("undoc", a.get("href"), a.get("title") or _text(a)))
-                entries.append(("undoc", a.get("href"), False, ""))
+            for li in tree.find_all("li"):
+                for a in A(li):
+                    links.append(("undoc", a.get("href"), a.get("title") or _text(a)))
+                    entries.append(("undoc", a.get("href"), _has_private(li), ""))
         elif stem == "all-documents":
             for li in soup.find_all("li"):
                 u = li.find("div", class_="url", recursive=False)
@@ -1038,6 +1039,7 @@ def crawl_page(fn: str, text: str) -> Dict[str, Any]:
                     take("classsig", a)
             for el in main.find_all(class_="interfaceinfo"):
                 t = _text(el)
+                texts.append(("interfaceinfo", " ".join(el.stripped_strings)))
                 prod = "overrides" if t.startswith("overrides") else "overriddenin" if t.startswith("overridden in") \
                     else "zope-from" if t.startswith("from") else "interfaceinfo-other"
                 for a in A(el):
@@ -1105,7 +1107,8 @@ def crawl_page(fn: str, text: str) -> Dict[str, Any]:
                 take("main-other", a)
         for a in A(soup):
             take("other", a)
-    return {"page": page, "file": fn, "refs": refs, "anchors": anchors, "links": links, "entries": entries, "texts": texts}
+    return {"page": page, "file": fn, "refs": refs, "anchors": anchors, "links": links, "entries": entries, "texts": texts,
+            "object_page": main is not None}
 
 
 def read_inventory(path: str) -> List[Tuple[str, str, str]]:
